@@ -811,6 +811,37 @@ func c09CommandTravelsWithTheContext(c *Ctx, R string) {
 	if cmd == nil {
 		return
 	}
+	// what is stored under CommandKey is a config.ContextCommandVal (the reader asserts that type): an
+	// untyped or string constant with the same text compiles and is never recognised as the command
+	nStores := 0
+	for _, pkg := range c.P.ModPkgs() {
+		pinfo := pkg.TypesInfo
+		for _, f := range pkg.Syntax {
+			if c.P.IsTestFile(f.Pos()) {
+				continue
+			}
+			ast.Inspect(f, func(n ast.Node) bool {
+				call, ok := n.(*ast.CallExpr)
+				if !ok || len(call.Args) != 3 {
+					return true
+				}
+				fn := Callee(pinfo, call)
+				if fn == nil || fn.FullName() != "context.WithValue" {
+					return true
+				}
+				k := objOf(pinfo, call.Args[1])
+				if k == nil || k.Name() != "CommandKey" || k.Pkg() == nil || relPkg(k.Pkg().Path()) != "internal/config" {
+					return true
+				}
+				nStores++
+				t := typeQName(pinfo.TypeOf(call.Args[2]))
+				c.Check(t == "internal/config.ContextCommandVal", R, "command stored in the context is a ContextCommandVal:"+relPkg(pkg.PkgPath)+"#"+itoa(nStores), call.Pos(), t,
+					"the value stored under config.CommandKey is a `"+pinfo.TypeOf(call.Args[2]).String()+"`, not a config.ContextCommandVal: the reader's type assertion does not recognise it, so `command = …` conditions never hold for this command")
+				return true
+			})
+		}
+	}
+	c.Check(nStores >= 3, R, "stores under CommandKey enumerated", token.NoPos, itoa(nStores), "fewer than three commands store themselves in the context")
 	info := cmd.TypesInfo
 	n := 0
 	var carries func(fi *FuncInfo, e ast.Expr, depth int) (bool, string)
